@@ -204,7 +204,7 @@ def pre_state(kind, name, data, truth):
     theirs = _defaults_of(truth["details"], truth["names"])
     # a parameter without default legitimately acquires a default in other kinds: only compare where both have one
     for a, b in zip(mine, theirs):
-        if a is not None and b is not None and a != b:
+        if b is not None and not (type(a) is type(b) and a == b):
             return "stale"
     return "agree"
 
@@ -550,8 +550,10 @@ def oracles_sync_properties(op, S0, S1, out, stats):
     if out["status"] != "ok":
         v.append(viol("C14", "A-resolvable-rejected", op, "every address resolves, yet sync_properties failed: %s %s at %s" % (out.get("exc", out.get("code")), out.get("msg", "")[:160], out.get("site")),
                       exc=out.get("exc", "exit"), site=out.get("site"), **common))
-        v.append(viol("C20", "O4-accepted-not-carried-out", op, "accepted sync_properties invocation ended with %s at %s" % (out.get("exc", out.get("code")), out.get("site")),
-                      exc=out.get("exc", "exit"), site=out.get("site"), **common))
+        if out.get("exc") not in ("AssertionError", "NotImplementedError"):
+            # those two are how sync_properties *reports* an address it cannot apply (C14's subject); anything else is an internal error
+            v.append(viol("C20", "O4-accepted-not-carried-out", op, "accepted sync_properties invocation ended with %s at %s" % (out.get("exc", out.get("code")), out.get("site")),
+                          exc=out.get("exc", "exit"), site=out.get("site"), **common))
         if S0.get(op["output"]) != S1.get(op["output"]):
             v.append(viol("C14", "E-failed-but-changed-output", op, "sync_properties failed, yet the output file changed", **common))
         return v
@@ -639,10 +641,11 @@ def oracles_fault(op, S0, S1, SF, outF, sim, stats):
             stats["c20_cells"][cellbase] = stats["c20_cells"].get(cellbase, 0) + 1
         if c == a or c == b:
             continue
-        if c is not None and a is None and b is None:
-            # a stray file neither run leaves behind: only tolerable after KILL, for files this very process
-            # created that were not named on the command line (DESIGN §3.2 oracle 1)
-            if fk == "KILL" and f in sim.created and f not in named:
+        if c is not None and b is None and f not in named:
+            # a stray file the fault-free run does not leave behind: only tolerable after KILL, for files this very
+            # process wrote that were not named on the command line (DESIGN §3.2 oracle 1); it may pre-exist as the
+            # debris of an earlier killed run
+            if fk == "KILL" and (f in sim.created or f in sim.touched):
                 stats["stray_after_kill_tolerated"] = stats.get("stray_after_kill_tolerated", 0) + 1
                 continue
             v.append(viol("C20", "O1-stray-file", op, "%s left behind after %s at %s" % (f, fk, seam), target_kind=tk, pre_state=pre, **common))
